@@ -52,7 +52,7 @@ from typing import Dict, List, Optional, Set, Tuple
 from .. import flow
 from ..cfg import cfg_of
 from ..model import AnchorError, Func, UnknownIdiom, short
-from .c17_helpers import BUFRX, WS, WSModel, local_defs, possible, single_return_expr
+from .c17_helpers import BUFRX, WS, WSModel, local_defs, possible, single_return_expr, with_inert
 from .common import implied, single, strip_await, walk_self
 
 FLAG = 'client_disconnected'
@@ -81,6 +81,8 @@ def _is_none(e):
 
 def feasible(cfg, atom):
     cache: Dict[int, Set[bool]] = {}
+    # a parameter with a constant default that no call of the package supplies evaluates as that default
+    atom = with_inert(getattr(cfg, 'project', None), getattr(cfg, 'func', None), atom)
 
     def ok(a, b, l):
         n = cfg.node(a)
@@ -434,6 +436,16 @@ class BRModel:
         self._by_qual = {f.qual: f for f in self.methods}
         self.queue = None
         for attr, val, _n in _stores(self.init):
+            if isinstance(val, ast.Call) and not val.args and not val.keywords:
+                # `self._messages = _new_queue()` with `return collections.deque()`: a parameterless one-expression factory of the
+                # module / class is what it returns
+                g = p.callee(self.init, val)
+                body = single_return_expr(g) if isinstance(g, Func) and not g.is_async else None
+                if isinstance(body, ast.Call) and p.resolve_expr(g.module, body.func, g) == 'collections.deque' \
+                        and not any(isinstance(x, ast.Name) and x.id in g.params() for a in list(body.args) + [k.value for k in body.keywords] for x in ast.walk(a)):
+                    val = body
+                    if p.resolve_expr(self.init.module, body.func, self.init) != 'collections.deque':
+                        raise UnknownIdiom('%s: the queue factory %s lives in a module that names deque differently' % (self.init.qual, g.qual))
             if isinstance(val, ast.Call) and p.resolve_expr(self.init.module, val.func, self.init) == 'collections.deque':
                 # deque([iterable[, maxlen]]): an initial content is not modelled; a maxlen makes the CONTAINER drop the oldest
                 # element when something is appended to a full queue - classified below, decided by R3
@@ -1112,7 +1124,12 @@ def r4_lifecycle(run):
     stops = []
     for n in cfg.live_nodes():
         for c in n.calls():
-            if isinstance(c.func, ast.Attribute) and isinstance(c.func.value, ast.Attribute) and _self_attr(c.func.value, ws.buf_attr):
+            recv = c.func.value if isinstance(c.func, ast.Attribute) else None
+            if isinstance(recv, ast.Name) and recv.id not in f.params():
+                # `receiver = self._buffered_receiver` ... `await receiver.stop()`: a local bound once is what it aliases
+                ds = local_defs(f, recv.id)
+                recv = ds[0] if len(ds) == 1 and ds[0] is not None else recv
+            if isinstance(recv, ast.Attribute) and _self_attr(recv, ws.buf_attr):
                 m = p.lookup_method(BUFRX, c.func.attr)
                 if isinstance(m, Func) and m.qual != br.starter.qual and _touches_task(br, m):
                     stop_nodes.append(n.id)
@@ -1306,10 +1323,31 @@ def r6_end_of_stream(run):
     def is_task(e) -> bool:
         return br.ref(f, e, br.task)
 
+    def _is_done_call(e) -> bool:
+        return isinstance(e, ast.Call) and isinstance(e.func, ast.Attribute) and e.func.attr == 'done' and not e.args and not e.keywords \
+            and isinstance(e.func.value, ast.Name) and e.func.value.id in wl
+
+    # `notified = waiter.done()` ... `if not notified:` - a local bound once is what it aliases, provided nothing can complete the
+    # future in between: no suspension point on any path from the binding to a use
+    fresh_done: Set[str] = set()
+    for nm in sorted({x.id for x in walk_self(f.node) if isinstance(x, ast.Name)} - set(f.params())):
+        ds = local_defs(f, nm)
+        if len(ds) != 1 or ds[0] is None or not _is_done_call(strip_await(ds[0])):
+            continue
+        bind = [n.id for n in cfg.live_nodes() if n.kind == 'stmt' and isinstance(n.ast, (ast.Assign, ast.AnnAssign)) and n.ast.value is ds[0]]
+        uses = [n.id for n in cfg.live_nodes() if n.id not in bind and any(isinstance(x, ast.Name) and x.id == nm and isinstance(x.ctx, ast.Load)
+                                                                             for x in n.walk())]
+        live = flow.reachable(cfg, [y for b in bind for (y, l) in cfg.succ[b] if l != 'exc'], avoid_nodes=set(bind))
+        stale = [i for i in live if cfg.node(i).susp]
+        after = flow.reachable(cfg, [y for i in stale for (y, _l) in cfg.succ[i]], avoid_nodes=set(bind)) if stale else set()
+        if bind and not any(u in after or u in stale for u in uses):
+            fresh_done.add(nm)
+
     def notified(e) -> Optional[bool]:
         """polarity True: 'the registered future is done' (the pump announced a message); False: 'it is not done'"""
-        if isinstance(e, ast.Call) and isinstance(e.func, ast.Attribute) and e.func.attr == 'done' and not e.args and not e.keywords \
-                and isinstance(e.func.value, ast.Name) and e.func.value.id in wl:
+        if _is_done_call(e):
+            return True
+        if isinstance(e, ast.Name) and e.id in fresh_done:
             return True
         m = membership(e)
         if m is not None and isinstance(m[0], ast.Name) and m[0].id in wl:
@@ -1351,7 +1389,7 @@ def r6_end_of_stream(run):
             recognised = {id(x.func.value) for x in walk_self(cond) if isinstance(x, ast.Call) and notified(x)}
             recognised |= {id(membership(x)[0]) for x in walk_self(cond) if isinstance(x, ast.Compare) and membership(x) is not None}
             stray = [x for x in walk_self(cond) if isinstance(x, ast.Name) and x.id in wl and id(x) not in recognised]
-            indirect = not any(isinstance(x, ast.Name) and x.id in wl for x in walk_self(cond))
+            indirect = not any(isinstance(x, ast.Name) and (x.id in wl or x.id in fresh_done) for x in walk_self(cond))
             if stray or indirect:
                 return short(cond)
         return None
@@ -1561,17 +1599,22 @@ def r9_status_views(run):
         if m is None or not m.is_property():
             raise AnchorError('%s.%s: property not found' % (WS, name))
         body = single_return_expr(m)
-        if body is None:
-            raise UnknownIdiom('%s: the property is not a single return expression' % m.qual)
         run.use(m)
         table = {}
         for cell in ws.all_cells():
-            vals = possible(body, ws.atom_for(m, cell))
+            if body is None:
+                # more than one return expression (`disconnected = self.<receiver>.client_disconnected` ... `return ... or
+                # disconnected`, early returns): the returns reachable for the cell, evaluated for the cell
+                vals = ws._property_truth(m, cell, 0)
+                if vals is None:
+                    raise UnknownIdiom('%s: the property is not a function of (state, disconnect flag) that the rule can evaluate' % m.qual)
+            else:
+                vals = possible(body, ws.atom_for(m, cell))
             if len(vals) != 1:
                 raise UnknownIdiom('%s: %s is not a function of (state, disconnect flag) alone (cell %s/%s)' % (
-                    m.qual, short(body, 80), cell[0], 'flag up' if cell[1] else 'flag down'))
+                    m.qual, short(body, 80) if body is not None else 'the property', cell[0], 'flag up' if cell[1] else 'flag down'))
             table[cell] = next(iter(vals))
-        views[name] = (m, body, table)
+        views[name] = (m, body if body is not None else name, table)
     terminal = set(ws.terminal_states())
 
     def cs(cell):
